@@ -23,6 +23,7 @@ CLAIMS = {
   note='Trusted: Coq kernel; the kernel routing-table semantics (add fails iff the same destination+hop is present); the list of kernel '
        're-spellings (no iptables binary in the sandbox); the harness vlib/c05.py. Partial: the normaliser is tied by correspondence, the '
        'soundness theorem covers the structural diff; real kernel behaviour cannot be exhibited.',
+  extra_note=' C05_iptables_unchanged_only_if_equal: for the iptables half the soundness of the structural diff is proved (no difference reported only for equal tables, chains, policies and ordered rules with equal options); the normaliser itself stays tied by correspondence.',
   technique='Coq proof of route-script convergence on a kernel-table semantics + exact differential of drc output against the Gallina model'),
  'C01': dict(
   text='asa_conv_partial: the line-number core of diffASAACLs (inserts, deletes, joined moves incl. log changes) is a Gallina model '
